@@ -331,6 +331,19 @@ def composite_from_parameters(c):
     for a, b in zip(members(new), members(col)):
         c.ensures("members-equal", c.and_(c.eq(a.n, b.n), c.eq(a.r, b.r), _field_eq(c, a.center, b.center), a is not b))
     c.ensures("same-class", type(new) is type(col))
+    # new values reach their members (also through nested '<i>:<j>:<key>' names)
+    fresh = {}
+    for key in p:
+        if key.endswith(':center'):
+            fresh[key] = [R("new_" + key.replace(':', '_') + "_%d" % k_, sample=(-2, 9)) for k_ in range(3)]
+        else:
+            fresh[key] = R("new_" + key.replace(':', '_'), nonneg=True, sample=(0.1, 2))
+    changed = c.call(col.from_parameters, fresh)
+    keys_in_order = [[k for k in sorted(p) if k.rsplit(':', 1)[0] == pref] for pref in sorted({k.rsplit(':', 1)[0] for k in p})]
+    for memb, keys in zip(members(changed), keys_in_order):
+        vals_ = {k.rsplit(':', 1)[1]: fresh[k] for k in keys}
+        c.ensures("new-values-reach-their-members", c.and_(c.eq(memb.n, vals_['n']), c.eq(memb.r, vals_['r']),
+                                                          _field_eq(c, memb.center, vals_['center'])))
     if kind == "spheres":
         al, be, ga = c.angle("alpha"), c.angle("beta"), c.angle("gamma")
         t = [R("tx", sample=(-2, 2)), R("ty", sample=(-2, 2)), R("tz", sample=(-2, 2))]
